@@ -157,7 +157,7 @@ def run_check(modname, tier, seed, replay=None, jobs=16):
     for cid, step, ds in jstats.get('drift', [])[:15]:
         print(f'DRIFT {cid} step {step}: {ds}  (model/implementation disagreement, not a property violation)')
     violations = [cid for cid in fails if cid not in attributed]
-    rdir = os.path.join(VERIF, 'replays', prop)
+    rdir = os.path.join(os.environ.get('VERIF_REPLAY_DIR') or os.path.join(VERIF, 'replays'), prop)
     shown = 0
     for cid in violations[:60]:
         os.makedirs(rdir, exist_ok=True)
@@ -217,8 +217,9 @@ def run_check(modname, tier, seed, replay=None, jobs=16):
             'wall_s': round(time.time() - t0, 2),
             'violations': len(violations),
         }
-        os.makedirs(os.path.join(VERIF, 'evidence'), exist_ok=True)
-        with open(os.path.join(VERIF, 'evidence', f'{prop}.json'), 'w') as fh:
+        evdir = os.environ.get('VERIF_EVIDENCE_DIR') or os.path.join(VERIF, 'evidence')
+        os.makedirs(evdir, exist_ok=True)
+        with open(os.path.join(evdir, f'{prop}.json'), 'w') as fh:
             json.dump(ev, fh, indent=1, default=str)
     print(
         f'{prop} tier={tier} seed={seed}: {len(cases)} cases judged by TLC '
